@@ -38,7 +38,7 @@ Proof.
   assert (Tv' : takes_value (r_spec r) = true) by (rewrite Sr; exact Tv).
   assert (No' : a_optional (r_spec r) = false) by (rewrite Sr; exact No).
   destruct (set_value_str r s Tv') as [r' [SV [Sp [Rw [Nnone Hl]]]]].
-  { intros K. rewrite Sr in K. rewrite K in Hint. exact Hint. }
+  { rewrite Sr. exact Hint. }
   { intros K. eapply (sn_list _ _ _ St); eauto. }
   unfold occ_input. rewrite Vo, SV. unfold text_of.
   exists (Some (S (List.length done), o_arg o)), true.
